@@ -117,7 +117,12 @@ func init() {
 		"key_derive": func() job {
 			return func(g, i int) string {
 				ue := tglib.NewRanUeContext(fmt.Sprintf("imsi-20893%010d", g), int64(g), 0, 2)
-				ue.AuthenticationSubs = tglib.GetAuthSubscription(fmt.Sprintf("%032x", g+1), fmt.Sprintf("%032x", g*7+3), "")
+				// odd UEs are provisioned with OP only (OPc derived per call), even ones with OPc
+				if g%2 == 1 {
+					ue.AuthenticationSubs = tglib.GetAuthSubscription(fmt.Sprintf("%032x", g+1), "", fmt.Sprintf("%032x", g*11+5))
+				} else {
+					ue.AuthenticationSubs = tglib.GetAuthSubscription(fmt.Sprintf("%032x", g+1), fmt.Sprintf("%032x", g*7+3), "")
+				}
 				var autn [16]byte
 				for j := range autn {
 					autn[j] = byte(g + i + j)
@@ -127,6 +132,21 @@ func init() {
 				return hex.EncodeToString(res) + hex.EncodeToString(ue.Kamf) + hex.EncodeToString(ue.KnasInt[:]) + hex.EncodeToString(ue.KnasEnc[:])
 			}
 		},
+	}
+	// decoding that FAILS: every UE decodes truncations of its own messages; the error it gets is the one it gets alone
+	families["ngap_decode_errors"] = func() job {
+		return func(g, i int) string {
+			b, err := tglib.GetUplinkNASTransport(int64(g)*1000+int64(i), int64(g), bytes.Repeat([]byte{0x7e, byte(g), byte(i)}, 3+g%5))
+			if err != nil {
+				return "err-build"
+			}
+			cut := len(b) - 1 - (i+g)%(len(b)-2)
+			_, err = ngap.Decoder(b[:cut])
+			if err == nil {
+				return fmt.Sprintf("ok@%d", cut)
+			}
+			return fmt.Sprintf("%d:%v", cut, err)
+		}
 	}
 	// downlink: every UE receives messages protected by its AMF (built here with the library's primitives, DIRECTION 1) and
 	// recovers them with tglib.NASDecode; the UEs use different algorithm pairs (NIA1/NEA2, NIA2/NEA1, NIA1/NEA1, NIA2/NEA2)
